@@ -14,6 +14,7 @@
  *   TM <channel> <remaining_ms> <target>     (device mode, before a message) countdown slots that are running
  *   TA <channel> <remaining_ms>              (after the message) countdown slots still running
  *   T2L <index> <old> <new> | PIN <pin> <new level> | SR <slot> <new>   values behind CH 14 / CH 18 / CH 11 lines
+ *   AT <input> <active_triggers>             (device mode, after every message) inputs that carry a channel number
  *   CH <table> <index>                       (device mode) every cell of the fixed tables whose content differs from
  *                                            the snapshot taken just before the event; after ADV only GPIO cells.
  * tables: 0 relay_cfg 1 rs_cfg 2 input_cfg 3 cfg.Time1 4 cfg.Time2 5 cfg.Time3 6 cfg.AutoCalOpenTime 7 cfg.AutoCalCloseTime
@@ -188,7 +189,9 @@ static void run_case(int n, char **lines) {
       vout("EV %d", k++);
       if (!gate) { timers("TM", 1); take(&S0); }
       deliver(call, rr, buf, (unsigned)len);
-      if (!gate) { take(&S1); timers("TA", 0); values(&S0, &S1); diff(&S0, &S1, 0); }
+      if (!gate) { take(&S1); timers("TA", 0); values(&S0, &S1);
+        for (int q = 0; q < NIN; q++) if (supla_input_cfg[q].channel != 255) vout("AT %d %u", q, supla_input_cfg[q].active_triggers);
+        diff(&S0, &S1, 0); }
     } else if (!strncmp(l, "SKEW ", 5)) {
       vout("EV %d", k++);
       if (!gate) v_now += strtoull(l + 5, NULL, 0);
